@@ -110,6 +110,10 @@ func (e *ExecutionConfig) ProposerConfig(_ context.Context,
 		}
 	}
 
+	// Work on a copy, as the stored configuration is shared between concurrent callers.
+	proposerConfigCopy := *proposerConfig
+	proposerConfig = &proposerConfigCopy
+
 	// At this point we definitely have a proposer config, however
 	// if it was the default config it is possible that some elements
 	// are missing.  Fill them in here.
